@@ -124,6 +124,9 @@ def mode_ignored_somewhere(f, p):
 
 
 def run(ctx):
+    # every view of this property is laid over array_length() atoms and bonds.get_atom_count() atoms: both agree with the arrays
+    from .C01 import length_rules
+    length_rules(ctx, "R6")
     res, cha, seg, mol = ctx.src(RES), ctx.src(CHA), ctx.src(SEG), ctx.src(MOL)
 
     # ---------------- R1 start definitions (whole function, composed symbolically) ----------------
@@ -329,6 +332,7 @@ def run(ctx):
 
 
 MUTANTS = [
+    Mutant("bonds-shorter-accepted", "structure/atoms.py", "                if value.get_atom_count() != self._array_length:\n", "                if value.get_atom_count() > self._array_length:\n", "R6.bonds-length-checked"),
     Mutant("spread-lengths-minus-one", SEG, "    seg_lens = starts[1:] - starts[:-1]\n", "    seg_lens = starts[1:] - starts[:-1] - 1\n", "R5.spread"),
     Mutant("range-check-only-prints", SEG, "    if (indices < 0).any():\n        raise ValueError(\"This function does not support negative indices\")\n    if (indices >= length).any():\n        index = np.min(np.where(indices >= length)[0])\n        raise ValueError(\n            f\"Index {index} is out of range for an atom array with length {length}\"\n        )\n\n    return np.searchsorted", "    if (indices < 0).any():\n        print(\"This function does not support negative indices\")\n    if (indices >= length).any():\n        index = np.min(np.where(indices >= length)[0])\n        raise ValueError(\n            f\"Index {index} is out of range for an atom array with length {length}\"\n        )\n\n    return np.searchsorted", "R5.range-checked"),
     Mutant("component-loop-breaks", MOL, "        visited_mask[connected] = True\n        molecule_indices.append(connected)\n", "        visited_mask[connected] = True\n        molecule_indices.append(connected)\n        break\n", "R3.component-loop"),
